@@ -30,7 +30,10 @@ def _alarm(signum, frame):
     raise CaseTimeout()
 
 
-signal.signal(signal.SIGALRM, _alarm)
+try:
+    signal.signal(signal.SIGALRM, _alarm)
+except ValueError:          # imported outside the main thread (e.g. while unpickling): no per-case alarm there
+    pass
 
 
 def with_timeout(fn, *a):
@@ -82,7 +85,8 @@ def enc_proc(p):
 
 
 def enc_hwprog(prog):
-    return [[list(i.sources), i.destination, i.categ] for i in prog]
+    ex = lambda x: "".join(str.__iter__(x)) if isinstance(x, str) else x        # exact characters of str subclasses
+    return [[[ex(s) for s in i.sources], ex(i.destination), ex(i.categ)] for i in prog]
 
 
 def canon_record(bag):
@@ -321,6 +325,21 @@ def mk_bag(rec, plain=False):
 
 def run_bag(a, b, plain=False):
     A, B = mk_bag(a, plain), mk_bag(b, plain)
+    if (len(a) + sum(len(es) for _, es in a)) % 2 == 1:
+        # history: the record is first built with half of its entries (plus a unit that will be emptied), measured
+        # and compared, and only then filled through the lists __getitem__ hands out - as the simulator fills its
+        # cycle records.  Anything computed at the first measurement must not survive.
+        try:
+            full = mk_bag(a, plain)
+            half = [[k, es[:len(es) // 2]] for k, es in a] + [["\x00tmp", a[0][1][:1] if a and a[0][1] else []]]
+            A2 = mk_bag(half, plain)
+            len(A2), A2 == B, B == A2, repr(A2)
+            for k, es in a:
+                A2[k].extend(full[k][len(es) // 2:])
+            A2["\x00tmp"].clear()
+            A = A2
+        except Exception:  # noqa: BLE001
+            A = mk_bag(a, plain)
     return [A == B, len(A), repr(A)]
 
 
@@ -411,12 +430,33 @@ def run_parse(lines, form="list"):
 _KEEP = []
 
 
+class Folded(str):
+    """a str subclass that compares and hashes ignoring case (the FoldedCase recipe): a legal `str` wherever the
+    API takes names; code that hands back ITS ARGUMENT instead of the registered spelling shows through it"""
+
+    def __eq__(self, other):
+        return isinstance(other, str) and str.lower(self) == str.lower(other)
+
+    def __ne__(self, other):
+        return not self.__eq__(other)
+
+    def __hash__(self):
+        return hash(str.lower(self))
+
+
+def exact(x):
+    """the exact characters of a str (or str subclass) result"""
+    return "".join(str.__iter__(x)) if isinstance(x, str) else x
+
+
 def run_isa(spec, caps, prog, form="list", twin=None):
     pu = M("processor_utils")
     su = M("str_utils")
     pd = M("program_defs")
     pgu = M("program_utils")
     pairs = [tuple(x) for x in spec]
+    if (len(pairs) + len(caps)) % 4 == 1:          # capability values given as case-insensitive str objects
+        pairs = [(m, Folded(c)) for m, c in pairs]
     if form == "items" and len({p[0] for p in pairs}) == len(pairs):
         table = dict(pairs).items()
     elif form == "zip":
@@ -441,7 +481,7 @@ def run_isa(spec, caps, prog, form="list", twin=None):
             _KEEP.append((ab, None))
         with chatty_logging(len(pairs) + len(caps)):
             isa = pu.load_isa(table, ab)
-        r1 = [Sym("ok"), [[k, v] for k, v in isa.items()]]
+        r1 = [Sym("ok"), [[exact(k), exact(v)] for k, v in isa.items()]]
     except Exception as e:  # noqa: BLE001
         cls, f, msg = exc_info(e)
         fields = [f[k] for k in ("old_element", "new_element", "element") if k in f]
